@@ -444,7 +444,7 @@ def cover(chk, s, res):
 
 def main(chk):
     quick = chk.tier == 'quick'
-    n = 30 if quick else 400
+    n = 30 if quick else 2500
     bdir = build.core('plain')
     avoid, avoid_shared = c18_probes.masks(chk.open_keys)
     schemas = c18_gen.corpus(chk.seed, n, avoid, avoid_shared)
